@@ -16,7 +16,7 @@ import (
 )
 
 func init() {
-	// worker: sign a variable update with a recording signer; report the bytes of the
+	// worker: sign a variable update with a recording signer (self-signed and CA-issued certificates; one signer per zone with the latency of a hardware token, which returns after the next second has begun); report the bytes of the
 	// returned Marshallable, the descriptor fields, what the signer saw, and the
 	// UTC instants just before and after the call
 	implOps["efi_sign"] = func(a []string) []string {
@@ -28,7 +28,10 @@ func init() {
 		fmt.Sscan(a[4], &ki)
 		key := rsaKey(2048, ki)
 		cert := simpleCert(key, "variable signer", int64(1000+ki))
-		rec := &recSigner{key: key}
+		if ki%2 == 1 {
+			cert = leafCert(key, "variable signer (CA-issued)", int64(1000+ki))
+		}
+		rec := &recSigner{key: key, slow: len(a) > 5 && a[5] == "slow"}
 		t0 := time.Now().UTC()
 		av, m, err := signature.SignEFIVariable(efivar.Efivar{Name: name, GUID: &g, Attributes: attributes.Attributes(at)}, rawValue(payload), rec, cert)
 		t1 := time.Now().UTC()
@@ -45,7 +48,7 @@ func init() {
 			t0.Format("2006-01-02T15:04:05"), t1.Format("2006-01-02T15:04:05"), fmt.Sprint(rec.calls)}
 	}
 	checkers["C06"] = checker{
-		rule: "all predefined variable names and random ASCII names, random and fixed GUIDs, attribute masks incl. APPEND_WRITE, payloads (empty database, hash lists, certificate lists, raw bytes), two keys; every case is signed in sandboxed workers started under TZ=UTC, TZ=Asia/Tokyo and TZ=America/St_Johns with a recording signer; the output is compared byte for byte with the Coq model sign_efi_variable (R_C06 extracted; descriptor time read back and required to lie between the UTC instants bracketing the call), the SignedData is verified over the rebuilt buffer and rejected over a one-byte-different buffer by the RFC 2315 reference verifier and by `openssl smime -verify -content`; every case is non-trivial, distinct by argument hash",
+		rule: "all predefined variable names and random ASCII names, random and fixed GUIDs, attribute masks incl. APPEND_WRITE, payloads (empty database, hash lists, certificate lists, raw bytes), two keys; every case is signed in sandboxed workers started under TZ=UTC, TZ=Asia/Tokyo and TZ=America/St_Johns with a recording signer (self-signed and CA-issued certificates; one signer per zone with the latency of a hardware token, which returns after the next second has begun); the output is compared byte for byte with the Coq model sign_efi_variable (R_C06 extracted; descriptor time read back and required to lie between the UTC instants bracketing the call), the SignedData is verified over the rebuilt buffer and rejected over a one-byte-different buffer by the RFC 2315 reference verifier and by `openssl smime -verify -content`; every case is non-trivial, distinct by argument hash",
 		run:  runC06,
 	}
 }
@@ -113,8 +116,17 @@ func runC06(c *Ctx) {
 		}
 		zone := zones[i%len(zones)]
 		ki := rng.Intn(2)
-		o := workers[zone].Call(20*time.Second, "efi_sign", hx([]byte(name)), guidArg(g), fmt.Sprint(at), hx(payload), fmt.Sprint(ki))
+		// the first case of every zone uses a signer that takes until the next second has begun:
+		// the descriptor and the signed buffer must still carry one and the same time
+		speed := ""
+		if i < len(zones) {
+			speed = "slow"
+		}
+		o := workers[zone].Call(20*time.Second, "efi_sign", hx([]byte(name)), guidArg(g), fmt.Sprint(at), hx(payload), fmt.Sprint(ki), speed)
 		class := zone + "/" + pclass
+		if speed != "" {
+			class += "/slow-signer"
+		}
 		fail := func(what string) {
 			c.Rep.Record("efi_sign", class, true, what, []string{hx([]byte(name)), guidArg(g), fmt.Sprint(at), hx(payload)}, "violation", []string{what}, map[string]string{"what": strings.SplitN(what, ":", 2)[0], "tz": zone})
 		}
